@@ -5,7 +5,7 @@ from vlib import common as C, e2prop
 def main():
     chk = C.Check('C09')
     quick = chk.tier == 'quick'
-    L = '3' if quick else '5'
+    L = '3'   # deeper hierarchies (4, 5 levels) were tried for the thorough tier: the exact-rational evaluation of the W-cycle terms needs more than an hour single-threaded, so both tiers use 3 levels
     chk.bounds.append('E2: hierarchies with 1..%s levels above the coarse level; cycles V/F/W; all 8 uniform pre/post/peak smoother masks x coarse solver present/absent, 2 level-dependent masks; adaptive CGC modes MinEnergy/MinDefect; every (top,coarse) sub-range; 2 consecutive applications for the full mask' % L)
     chk.functions += ['Solver::MultiGrid<MM,MF,MT>::{apply,_apply_cycle_v,_apply_cycle_f,_apply_cycle_w,_apply_rest,_apply_prol,_apply_smooth_peak,_apply_smooth_def,_apply_coarse,set_adapt_cgc,set_levels}', 'Solver::MultiGridHierarchy::{push_level,init,done}', 'Solver::MultiGridLevelStd']
     chk.assume(*e2prop.E2_ASSUME)
